@@ -117,12 +117,20 @@ int parse_ifdef_ignore(AsmContext *asm_context, int ignore_section)
   return -1;
 }
 
+#define MAX_NESTED_IFS 128
+
 int parse_ifdef(AsmContext *asm_context, int ifndef)
 {
   char token[TOKENLEN];
   int token_type;
   int ignore_section = 0;
   int param_count; // throw away
+
+  if (asm_context->ifdef_count >= MAX_NESTED_IFS)
+  {
+    print_error(asm_context, "Too many nested .if / .ifdef");
+    return -1;
+  }
 
   asm_context->ifdef_count++;
 
@@ -156,6 +164,12 @@ int parse_ifdef(AsmContext *asm_context, int ifndef)
 int parse_if(AsmContext *asm_context)
 {
   int num;
+
+  if (asm_context->ifdef_count >= MAX_NESTED_IFS)
+  {
+    print_error(asm_context, "Too many nested .if / .ifdef");
+    return -1;
+  }
 
   asm_context->ifdef_count++;
 
